@@ -3,14 +3,14 @@ SPECIFICATION Spec
 CONSTANTS
   GRIDS <- QuickGrids
   SGRIDS <- QuickSolveGrids
-  AGRIDS <- TinyGrids
+  AGRIDS <- QuickGenAllocGrids
   KMAX = 3
   DEN = 2
   OCCVALS = {0, 1, 2}
   FNUM = 100
   FDEN = 1
   RATIO = 2
-  MODES = {"gen", "solve"}
+  MODES = {"gen", "solve", "alloc"}
   BORDER = "grid"
   UNIT = 1
   EMIT = TRUE
